@@ -266,15 +266,20 @@ func genWorld(tape *kernel.Tape, env *kernel.Env, idx int) (*world, bool) {
 		w.memKind = tape.Choose(3, "in-memory-reader-kind")
 	case "value":
 		w.mediaType = []string{"application/json", "application/xml", "text/plain", "application/octet-stream", "application/x-yaml"}[tape.Choose(5, "producer")]
-		switch w.mediaType {
-		case "application/json", "application/x-yaml":
-			w.value = map[string]any{"s": string(tape.Bytes(tape.Choose(40, "vlen"), []byte("ab<>&\"é \n"), "vbyte")), "n": tape.Choose(1000, "vn")}
-		case "application/xml":
-			w.value = xmlVal{A: string(tape.Bytes(tape.Choose(40, "vlen"), []byte("ab<>&\" "), "vbyte")), B: tape.Choose(1000, "vn")}
-		case "text/plain":
-			w.value = string(tape.Bytes(tape.Choose(600, "vlen"), []byte("ab \n\x00é"), "vbyte"))
-		default:
-			w.value = tape.Bytes(tape.Choose(600, "vlen"), []byte{0, 1, 'a', 0xff, '\n'}, "vbyte")
+		if (w.mediaType == "application/json" || w.mediaType == "text/plain") && tape.Bool(5, "byte-slice-value") {
+			// a []byte handed over as a *value*: what goes out is what the media type's producer makes of it
+			w.value = tape.Bytes(1+tape.Choose(60, "vlen"), []byte("ab=&\"\n{"), "vbyte")
+		} else {
+			switch w.mediaType {
+			case "application/json", "application/x-yaml":
+				w.value = map[string]any{"s": string(tape.Bytes(tape.Choose(40, "vlen"), []byte("ab<>&\"é \n"), "vbyte")), "n": tape.Choose(1000, "vn")}
+			case "application/xml":
+				w.value = xmlVal{A: string(tape.Bytes(tape.Choose(40, "vlen"), []byte("ab<>&\" "), "vbyte")), B: tape.Choose(1000, "vn")}
+			case "text/plain":
+				w.value = string(tape.Bytes(tape.Choose(600, "vlen"), []byte("ab \n\x00é"), "vbyte"))
+			default:
+				w.value = tape.Bytes(tape.Choose(600, "vlen"), []byte{0, 1, 'a', 0xff, '\n'}, "vbyte")
+			}
 		}
 	}
 	if w.kind == "both" || w.kind == "form-multi" || w.kind == "form-url" {
